@@ -26,7 +26,7 @@ def main():
                 for c in r["covers"]:
                     print("   cover:", c["description"], c["status"])
                 if r["verdict"] is None or r["compile_or_cbmc_error"]:
-                    os.system("grep -n -E '^error|^warning: unused|panicked|Out of memory|error\\[' -A6 %s | head -60" % r["log"])
+                    os.system("grep -n -E '^error|panicked|Out of memory' -A8 %s | head -60" % r["log"])
                 sys.stdout.flush()
     finally:
         if not keep:
